@@ -1,6 +1,7 @@
 CONSTANTS
   MaxOps = 2
   MaxDepthC = 0
+  Pattern = "any"
   Dump = TRUE
 INIT Init
 NEXT Next
